@@ -518,6 +518,17 @@ def check_frame(cx, pid):
         v = validate(cx, "TF%d" % chunk, "TraceFrame", tconsts, rs[chunk:chunk + 400], [], {"op": "reset"})
     if rs:
         cx.samples.append({"case": {k: cases[1][k] for k in ("cfg", "ps", "cut", "frag", "carrier")}, "recorded": rs[1]["events"][:5]})
+    if pid == "C04":
+        # encoders under concurrent writers: several goroutines write []byte messages through one
+        # length-field codec instance of a real channel; every frame on the wire must carry its own length
+        import chancheck as cc
+        from chanlib import cfg as ccfg, NZ_SIZES
+        for name, c in [("lfconc", ccfg({"W1": cc.W("MD", "MD"), "W2": cc.W("MD"), "W3": cc.W("MD", "MD")}, qsize=2, until=True)),
+                        ("lfconc-sync", ccfg({"W1": cc.W("MD", "MD"), "W2": cc.W("MD"), "W3": cc.W("MD")}, qsize=0))]:
+            before = len(cx.fails)
+            cc.random_runs(cx, name, c, 40 if quick else 400, sizes=[x for x in NZ_SIZES if x <= 4096], traced=False, codec="lf")
+            for f, case, r in cx.fails[before:]:
+                case["_module"] = "chan"
     if pid == "C08":
         extra = []
         for ci, c in enumerate(FRAME_CONFIGS):
